@@ -29,6 +29,11 @@ CHECKS = {
    technique="deterministic simulation: seeded InsertChain/InsertHeaderChain/SetHead/restart histories, canonical-index and tx-lookup reference model checked at rest after every operation",
    text="After every operation on full, header-only and headers-then-blocks nodes: every height up to the head maps to the head's ancestor in the simulator's tree, nothing maps above the head (64 heights probed), canonical blocks up to the block head have header/body/receipts/TD, and every transaction ever mined resolves iff it is in a canonical block, to that block and index (including transactions mined on two branches). Reorganisations to shorter branches and rewinds are generated on purpose.",
    note="Trusted: synctest, harness, ancestry model. Header-first imports are generated as properly separated phases on one branch (what that import path supports). One known finding is filtered by its specific signature (known_findings.json)."),
+
+ "C19": dict(engine="schedsim", category="exploration", design_ref="§3 C19, §2.2",
+   technique="deterministic simulation: seeded gate scheduler over the real Feed/SubscriptionScope goroutines (one release at a time, yield points inside Send/remove), exactly-once / count / common-order / no-delivery-after-unsubscribe checks over the recorded history",
+   text="Seeded interleavings of Send / Subscribe / Unsubscribe / scope Close with slow and fast, buffered and unbuffered subscribers, including unsubscription while a send is blocked on that very subscriber. History oracles use definite (step-ordered) happens-before only: every value is delivered exactly once to each subscription established before the send began and not unsubscribed before it returned, never to dead subscriptions, never after Unsubscribe/Close returned (deliveries into buffers are observed as length changes at rest), Send's return value equals the observed deliveries, all subscribers see one common order, and every actor terminates once receivers drain (else deadlock).",
+   note="Trusted: synctest quiescence, harness. Granularity: blocking points and the listed yield points, not every memory access (data races proper are outside this check)."),
 }
 
 def main():
@@ -45,6 +50,7 @@ def main():
         {"name": "kernel", "path": "sim/kernel", "serves_properties": sorted(CHECKS), "kind_free_text": "seeded PRNG, plan/execute/shrink/replay loop, evidence, real-time watchdog with deadlock recogniser"},
         {"name": "simdisk", "path": "sim/simdisk", "serves_properties": ["C04"], "kind_free_text": "simulated disk: write log, crash images (prefixes), injected write failures, ValueSize scaling"},
         {"name": "chainsim", "path": "sim/chainsim", "serves_properties": [p for p in sorted(CHECKS) if p in ("C01","C02","C03","C04","C05","C06","C13","C15","C16")], "kind_free_text": "real core.BlockChain nodes on simulated disks in a synctest bubble; universe built by the repo's block builder; stub gossip"},
+        {"name": "schedsim", "path": "sim/schedsim", "serves_properties": [p for p in sorted(CHECKS) if p in ("C13","C14","C15","C16","C19")], "kind_free_text": "gate scheduler: real goroutines parked on channels, one released at a time from the plan, synctest.Wait as quiescence barrier"},
         {"name": "refmodel", "path": "sim/refmodel", "serves_properties": sorted(CHECKS), "kind_free_text": "independent reference models (RLP, Merkle-Patricia root and traversal, ...)"},
      ],
      "checks": [],
